@@ -134,6 +134,20 @@ func buildDoc(r *rand.Rand, spec docSpec) (*model.Document, *genInfo) {
 			k := r.Intn(100)
 			y := float64(700 - ei*60)
 			bbox := model.BBox{X: 72, Y: y, Width: 400, Height: 40}
+			if pi == 0 && ei == 0 && r.Intn(5) == 0 {
+				// the document opens with a paragraph below the minimum chunk size followed by
+				// one above the maximum (a lead-in line in front of a long passage)
+				max := []int{1000, 2000}[r.Intn(2)]
+				for _, text := range []string{g.prose(15 + r.Intn(70)), g.prose(max*12/10 + r.Intn(max))} {
+					page.AddElement(&model.Paragraph{Text: text, BBox: bbox, FontSize: 11})
+					if lay != nil {
+						lay.Paragraphs = append(lay.Paragraphs, model.ParagraphInfo{Index: len(lay.Paragraphs), Text: text, BBox: bbox, FontSize: 11})
+					}
+					info.Kinds["paragraph"]++
+				}
+				info.Features["motif:opens-small-then-oversized"] = true
+				continue
+			}
 			if !spec.NoHeadings && spec.Flavour != "likepara" && r.Intn(25) == 0 {
 				// a motif around the edges of the size rules: a paragraph larger than a
 				// chunk may be, a paragraph smaller than a chunk should be, a minor heading,
